@@ -8,25 +8,34 @@ namespace AsyncFix.Link
 open AsyncFix.Session AsyncFix.Generated AsyncFix.Generated.ConnEnum
 open AsyncFix.Session.Msg
 
-theorem lookup_none_of_all {l : List (Nat × String)} {t : Nat} (h : l.all (fun p => !hdrTags.contains p.1) = true)
-    (ht : hdrTags.contains t = true) : lookup t l = none := by
+theorem lookup_43_of_all {l : List (Nat × String)} (h : l.all appTagOk = true) {v : String}
+    (hv : lookup tPossDupFlag l = some v) : v ≠ "Y" := by
   induction l with
-  | nil => rfl
+  | nil => simp [lookup] at hv
   | cons p r ih =>
-    obtain ⟨k, v⟩ := p
+    obtain ⟨k, w⟩ := p
     simp only [List.all_cons, Bool.and_eq_true] at h
-    have hk : k ≠ t := by
-      rintro rfl
+    by_cases hk : k = tPossDupFlag
+    · subst hk
+      simp only [lookup, if_true, Option.some.injEq] at hv
+      subst hv
       have := h.1
-      simp only [ht] at this
+      intro hw
+      subst hw
       exact absurd this (by decide)
-    simp [lookup, hk, ih h.2]
+    · simp only [lookup, hk, if_false] at hv
+      exact ih h.2 hv
 
 theorem appMsg_facts {m : Msg} (h : isAppMsg m = true) :
     (m.mtype ≠ mHeartbeat ∧ m.mtype ≠ mTestRequest ∧ m.mtype ≠ mResendRequest ∧ m.mtype ≠ mSequenceReset ∧
-      m.mtype ≠ mLogout ∧ m.mtype ≠ mLogon) ∧ m.get? tPossDupFlag = none := by
+      m.mtype ≠ mLogout ∧ m.mtype ≠ mLogon) ∧ m.get? tPossDupFlag ≠ some "Y" ∧
+      ¬ (m.get? tPossDupFlag).getD "N" = "Y" := by
   simp only [isAppMsg, Bool.and_eq_true, Bool.not_eq_true'] at h
-  exact ⟨isAppRow_ne h.1, lookup_none_of_all h.2 (by decide)⟩
+  have hne : m.get? tPossDupFlag ≠ some "Y" := fun hh => lookup_43_of_all h.2 hh rfl
+  refine ⟨isAppRow_ne h.1, hne, ?_⟩
+  cases hg : m.get? tPossDupFlag with
+  | none => decide
+  | some v => intro hv; simp at hv; exact hne (by rw [hg, hv])
 
 /-- the frame an accepted application message is sent as -/
 theorem appFrame_facts {s : Session} {stamp : String} {m : Msg} {n : Int} (h : isAppMsg m = true)
@@ -34,15 +43,18 @@ theorem appFrame_facts {s : Session} {stamp : String} {m : Msg} {n : Int} (h : i
     FrameGood s.sender s.target (buildFrame s stamp m n) ∧
       absFrame (buildFrame s stamp m n) = ⟨n, .app (payloadOf m) false⟩ ∧
       absRow (n, buildFrame s stamp m n) = (n, some (payloadOf m)) := by
-  obtain ⟨⟨a0, a1, a2, a4, a5, aA⟩, hpd⟩ := appMsg_facts h
-  have h43 : (buildFrame s stamp m n).get? tPossDupFlag = none := get?_build_43_of_none s stamp n hpd
+  obtain ⟨⟨a0, a1, a2, a4, a5, aA⟩, hpd, _⟩ := appMsg_facts h
+  have h43 : (buildFrame s stamp m n).get? tPossDupFlag = m.get? tPossDupFlag :=
+    get?_build_other s stamp m n tPossDupFlag (by refine ⟨?_, ?_, ?_, ?_, ?_, ?_, ?_, ?_⟩ <;> decide)
+  have hb43 : ((buildFrame s stamp m n).get? tPossDupFlag == some "Y") = false := by
+    rw [h43]; simpa using hpd
   refine ⟨frameGood_build hl ?_, ?_, ?_⟩
   · unfold KindOK
     rw [buildFrame_mtype, if_neg aA, if_neg a2, if_neg a4, if_neg a5]
-    exact ⟨a0, a1, Or.inl h43⟩
+    exact ⟨a0, a1⟩
   · have hk := absFrame_app (f := buildFrame s stamp m n) aA a2 a4 a5
-    rw [payloadOf_build, h43] at hk
-    exact absFrame_eq (get?_build_34 ..) (by rw [hk]; rfl)
+    rw [payloadOf_build, hb43] at hk
+    exact absFrame_eq (get?_build_34 ..) hk
   · have : ConnEnum.noReplay.contains m.mtype = false := by
       simp only [isAppMsg, Bool.and_eq_true, Bool.not_eq_true'] at h; exact h.1
     unfold absRow
@@ -57,7 +69,7 @@ theorem appSend_sim {s : Side} {env : Env} {c : Conn} {m : Msg} (hc : ConnGood s
         (Session.appSend env c m).1 (Session.appSend env c m).2 ∧ hasRaised (Session.appSend env c m).2 = false
     else (Session.appSend env c m).1 = c ∧ writesOf (Session.appSend env c m).2 = [] ∧
       deliveriesOf (Session.appSend env c m).2 = [] ∧ hasRaised (Session.appSend env c m).2 = true := by
-  obtain ⟨⟨a0, a1, a2, a4, a5, aA⟩, hpd⟩ := appMsg_facts hm
+  obtain ⟨⟨a0, a1, a2, a4, a5, aA⟩, _, hpd⟩ := appMsg_facts hm
   obtain ⟨g1, g2, g5, g6, g7, g8, he, hinb, hrows, l1, l2⟩ := connFacts hc
   have hlat : frameLatin1 (buildFrame c.sess env.stamp m c.sess.nextOut) = msgLatin1 m :=
     frameLatin1_build_app l1 l2 hl3 hm
@@ -96,7 +108,7 @@ theorem appSend_sim {s : Side} {env : Env} {c : Conn} {m : Msg} (hc : ConnGood s
       rw [if_pos (by simp [hcs, hml])]
       have hsend : sendMsg env m c = ⟨.ok (), sentFresh c (buildFrame c.sess env.stamp m c.sess.nextOut),
           [.write (buildFrame c.sess env.stamp m c.sess.nextOut)]⟩ := by
-        rw [sendMsg_gate_ok hg, sendCore_fresh env m c a1 a4 hpd hl hrows hsock]; rfl
+        rw [sendMsg_gate_ok hg, sendCore_fresh' env m c a1 a4 hpd hl hrows hsock]; rfl
       obtain ⟨fg, fa, fr⟩ := appFrame_facts (s := c.sess) (stamp := env.stamp) (n := c.sess.nextOut) hm hl
       rw [g1, g2] at fg
       have hap : Session.appSend env c m = (sentFresh c (buildFrame c.sess env.stamp m c.sess.nextOut),
